@@ -15,7 +15,7 @@ BOUND = {'j1939-21': 1_250_000, 'j1939-22': 3_000_000}
 PROBE = 25_000
 
 
-def base(dll, kind, npk, win, seed):
+def base(dll, kind, npk, win, seed, paced=False):
     unit = 7 if dll == 'j1939-21' else 60
     size = unit * npk - (seed % (unit - 1))          # npk packets, last one partial (or full when seed % .. == 0)
     # address 0 is an address like any other: it takes its turn on either side
@@ -25,6 +25,10 @@ def base(dll, kind, npk, win, seed):
     maxb = 255 if win == 'all' else win
     stacks = [dict(dll=dll, max_cmdt=maxa, subs=[dict(cid=1, filt=sa)], cas=[]),
               dict(dll=dll, max_cmdt=maxb, subs=[dict(cid=2, filt=db)], cas=[])]
+    if paced:
+        # the originator spaces its data packets (a configured minimum interval): after a loss in the middle of a window it goes on
+        # sending for a while, so the RESPONDER's time limit runs out first and its abort reaches an originator still waiting
+        stacks[0]['cmdt_iv'] = 0.05
     pf, ps = (0xFE, 0xCA) if kind == 'bam' and seed % 2 else (0xD0, da)
     tf = T_FOLLOW[dll] + (npk * 60000 if kind == 'bam' else 0)
     script = [dict(t=1000, s=0, op='send', a=[0, pf, ps, 6, sa, dict(seed=seed, len=size)]),
@@ -43,9 +47,9 @@ def base(dll, kind, npk, win, seed):
     return dict(stacks=stacks, lat=[500], jit=[1], script=script, horizon=horizon, faults=[], tf=tf, kind=kind, dll=dll)
 
 
-def cases(dll, kind, npk, win, seed):
+def cases(dll, kind, npk, win, seed, paced=False):
     """the clean run plus every single-frame loss and every silence point"""
-    sc0 = base(dll, kind, npk, win, seed)
+    sc0 = base(dll, kind, npk, win, seed, paced)
     res0 = scen.run(sc0)
     nfr = sum(1 for e in res0.trace if e[2] == 'tx' and e[0] < sc0['tf'])
     per = [sum(1 for e in res0.trace if e[2] == 'tx' and e[0] < sc0['tf'] and e[1] == s) for s in (0, 1)]
@@ -188,6 +192,8 @@ def explore(out, tier, dlls, limit=None):
     for dll, kind, npk, win in shapes(tier, dlls):
         seed = npk * 31 + (7 if win == 'all' else win)
         extra = bg_cases(dll, win, seed) if (kind == 'p2p' and npk == 3 and win == 1) else []
+        if kind == 'p2p' and npk == 5 and win == 2:
+            extra = extra + cases(dll, kind, npk, win, seed=seed + 1, paced=True)
         for sc, res in cases(dll, kind, npk, win, seed=seed) + extra:
             if res is None:
                 res = scen.run(sc)
@@ -211,7 +217,7 @@ def run(out, tier, rng, work):
                 'exact payload or nothing, both session tables empty within 1.25 s (FD: 3 s) of the last frame (probes every 25 ms), timeout '
                 'abort present where asked, follow-up delivered intact; J1939-21 handler logs replayed on the Coq model; '
                 'non-trivial = a fault was injected'
-                ' Addresses rotate incl. 0 on either side; when one stack falls silent for good the time-out abort must come from the other one.')
+                ' One shape per layer with an originator that spaces its data packets (the responder gives up first).  Addresses rotate incl. 0 on either side; when one stack falls silent for good the time-out abort must come from the other one.')
     out.assumptions = ['A1-A6 of DESIGN.md section 3; bound checked with 50 ms probe granularity plus jitter',
                        'J1939-22 is covered here by fault enumeration and oracle only (its Coq model belongs to C02)']
     C.std_proof_stage(out, 'C06', FILES)
